@@ -94,6 +94,49 @@ CHECKS.update({
             "their mutations are parsed by the code and judged by TLC.",
             "TLA+ spec TypeName.tla: exhaustive string enumeration by TLC + TLC-judged recorded parses"),
 })
+PROTO = ("TLA+ spec Gtirb.tla (Reload/LoadFault actions, MsgOf message mapping): TLC-enumerated perturbations and "
+         "behaviours replayed through real save/load under both protobuf runtimes")
+CHECKS.update({
+    "C01": ("model_checking",
+            "Reload (save then load of a self-contained IR) is a spec action that leaves the abstract state unchanged; TLC "
+            "enumerates every single-field perturbation of a populated IR (every enum constant, every flag/attribute "
+            "number, boundary integers and strings, every edge-label value) followed by Reload, and random behaviours "
+            "of the composed model with frequent Reloads; the loaded IR is projected by UUID/identity and compared with "
+            "the spec state, deep_eq must hold both ways, and re-saving must give the same content. Both protobuf "
+            "runtimes (upb, pure Python).", PROTO),
+    "C02": ("model_checking",
+            "MsgOf(ir) in Gtirb.tla is the gtirb.proto.IR message field by field; at every Reload the saved bytes are "
+            "split into header and message, parsed with the generated classes and compared with MsgOf (writer alone); a "
+            "message built from MsgOf by an independent writer (generated classes only, shuffled repeated fields, "
+            "duplicates, arbitrary vertex list, stray address without has_address, present all-default label) is loaded "
+            "and compared (reader alone). Enum domains come from /repo/proto, so every declared constant is exercised.",
+            PROTO),
+    "C09": ("model_checking",
+            "Objects reached through references after every load are mapped to node ids by identity and must be the "
+            "attached objects (a copy is unprojectable = violation); AuxData UUID/Offset entries at IR and module level "
+            "must decode to the attached object iff get_by_uuid finds one; TLC enumerates one dangling and one ill-typed "
+            "reference for every reference site of every kind (LoadFault) and the loader must raise "
+            "DeserializationError.", PROTO),
+    "C14": ("model_checking",
+            "AuxLife.tla models the table life cycle in two layers (what save must write vs. the lazy-container "
+            "mechanism); TLC checks SaveMeetsReq/NeverStale on all histories over 3 generations for every table class "
+            "(known, unknown at top level, unknown reached, unknown unreached; canonical and non-canonical bytes), exhibits "
+            "the counterexample of the reach-only design, and every printed transition is replayed through real "
+            "load/save at IR and module level with concrete representatives.",
+            "TLA+ spec AuxLife.tla: TLC invariant checking + exhaustive transition-graph replay through real files"),
+    "C17": ("fault_enumeration",
+            "TLC enumerates every structural fault (LoadFault: dangling/ill-typed reference per site, duplicated UUIDs, "
+            "unknown enum number, wrong-length UUID, magic/version variations) with the outcome the property prescribes; "
+            "valid files are corrupted at byte level (every truncation, bit flips, byte substitutions, header variations) "
+            "and loaded under a watchdog; every outcome is judged by TLC (CoherentJudge.tla: ValueError for a bad header, "
+            "no hang, and a returned IR must satisfy Forest/Cache/RefKinds/Bytes/Resave).",
+            "TLA+ specs Gtirb.tla (LoadFault) + CoherentJudge.tla: TLC-enumerated faults, TLC-judged outcomes"),
+    "C18": ("model_checking",
+            "After Reload the pre-load IR is kept as a frozen twin; the spec stores Content(ir) in the variable shadow and "
+            "predicts deep_eq(live, twin) = (Content(live) = Content(twin)); TLC enumerates every single operation after "
+            "the load and every pair of a smaller vocabulary; live.deep_eq(twin) and twin.deep_eq(live) are both "
+            "executed after each and must equal the prediction.", PROTO),
+})
 NOT_YET = {}
 
 
